@@ -17,12 +17,15 @@ Decided (structural clauses only):
              sample_time, ctts_index, sample_rendering_offset, is_sync_sample, sample_count, read_sample) must combine
              compatible quantities: no chunk number where a sample number belongs, no absolute id multiplied or reduced
              modulo, no file-relative index added to a chunk / run origin or divided by a run's samples_per_chunk, every
-             table indexed by its own kind of zero-based index, byte and tick sums / products formed in 64 bits.
+             table indexed by its own kind of zero-based index, byte and tick sums / products formed in 64 bits, and the
+             half-open interval discipline at run boundaries (a zero-based position is compared with a count, a sample
+             number with the first number of a run, using < / >=, never <= / >).
              A necessary condition of the formulas (a dimensionally inconsistent formula is wrong for some table set).
   R-PURE     the lookups are functions of the tables and the arguments: no interior mutability in the reader / track types
              and `&self` receivers only (C15 R1/R2 instances), so no cache or cursor can make a result depend on earlier calls.
 NOT decided: the values themselves - literal constants are polymorphic in R-UNITS (x - 1 is a zero-based index or the
-previous id), so off-by-one errors and wrong comparison directions at run boundaries are not decided by any rule here.
+previous id), so an off-by-one in a constant (`- 1` dropped, `+ 1` added) is not decided by any rule here; the direction of
+the run-boundary comparisons is.
 """
 import hirq
 from callgraph import callgraph
@@ -277,5 +280,5 @@ def run(fx, chk, tier):
     return chk.finish(
         "other",
         "Absent-table defaults, the count source, lower-bound table footprints, the dimensional consistency of every lookup operation (units, absolute/relative, file/run scope, 64-bit byte and tick arithmetic) and the purity of the lookups are checked on HIR/MIR. "
-        "The values the formulas produce are NOT decided: constants are polymorphic in the dimension typing, so off-by-one errors and comparison directions at run boundaries are outside every rule here.",
+        "The inclusive / exclusive direction of the run-boundary comparisons is decided (half-open interval discipline). The values the formulas produce are NOT decided: constants are polymorphic in the dimension typing, so an off-by-one in a literal is outside every rule here.",
     )
